@@ -59,12 +59,15 @@ def spline_T(draw, min_gap=0.5, min_n=2, max_n=8, z_lo=None):
     if z_lo is not None:
         shift = z_lo - z[0]
         z = [rounded(v + shift, 4) for v in z]
-    logk = [draw(st.floats(-5.0, 4.0)) for _ in z]
+    lo_k = draw(st.sampled_from([-5.0, -5.0, -13.0]))
+    logk = [draw(st.floats(lo_k, 4.0 if lo_k > -6 else -6.0))
+            for _ in z]
     same = draw(st.booleans())
     if same and len(z) > 2:
         logk[1] = logk[0]  # a segment of constant conductivity (slope 0)
     K = [float('{:.6g}'.format(10.0 ** e)) for e in logk]
-    tmin = float('{:.6g}'.format(10.0 ** draw(st.floats(-3.0, 2.0))))
+    tmin = float('{:.6g}'.format(10.0 ** draw(
+        st.floats(-3.0, 2.0) if lo_k > -6 else st.floats(-12.0, -6.0))))
     typing = draw(st.sampled_from(['float', 'float', 'int-min', 'int-all']))
     if typing != 'float':
         # a parameter file may spell whole numbers without a decimal point
@@ -82,6 +85,16 @@ def spline_T(draw, min_gap=0.5, min_n=2, max_n=8, z_lo=None):
 def peatclsm_sy(draw):
     if draw(st.integers(0, 5)) == 0:
         return dict(PUBLISHED_PEATCLSM_SY, type='peatclsm')
+    if draw(st.integers(0, 5)) == 0:
+        # whole numbers spelled without a decimal point (YAML ints); 1 is
+        # the upper calibration bound of theta_s, 2 that of sd
+        return {
+            'type': 'peatclsm',
+            'sd': draw(st.sampled_from([1, 2, 0.5])),
+            'theta_s': 1,
+            'b': draw(st.integers(1, 20)),
+            'psi_s': draw(st.sampled_from([-1, -0.1])),
+        }
     return {
         'type': 'peatclsm',
         'sd': draw(st.floats(0.02, 2.0).map(rounded)),
